@@ -15,7 +15,15 @@ def main():
     with open(jf, encoding="utf-8") as fh:
         jobs = json.load(fh)
     out = []
-    for job in jobs:
+    import logging
+
+    lib_log = logging.getLogger("mysensors")
+    lib_log.addHandler(logging.NullHandler())
+    lib_log.propagate = False
+    for k, job in enumerate(jobs):
+        # what the library does must not depend on its log level: every third job of a worker runs with the library's
+        # debug logging switched on (records are built and dropped)
+        lib_log.setLevel(logging.DEBUG if k % 3 == 1 else logging.WARNING)
         if "replay" in job:
             res = mod.replay(job["replay"])
         else:
